@@ -12,13 +12,13 @@ def run(ctx, replay=None):
         mc = [dict(shape="chain", max_env=2, flagsets="CoreFlagSets", invariants=inv, properties=[]),
               dict(shape="chain", max_env=1, flagsets="NoAllFlagSets", invariants=inv, properties=[])]
         ex = [dict(shape="chain", max_env=2, flags="m,c,o", extra="e;c,e,m;e,o", faults=False),
-              dict(shape="star", max_env=1, flags="m,c,o,e", faults=False, env="Edit,Touch,DeleteArt,StripKey,Replace,MakeCsr,EditProfile,Expire,SetIssuer"),
+              dict(shape="star", max_env=1, flags="m,c,o,e", faults=False, env="Edit,Touch,DeleteArt,StripKey,ResaveArt,Replace,MakeCsr,EditProfile,Expire,SetIssuer"),
               dict(shape="chain", max_env=1, flags="m", extra="c,m;c,m,o;a;e,m", faults=False, native=True)]       # the CLI binary on the native filesystem
     else:
         mc = [dict(shape=s, max_env=3, flagsets="NoAllFlagSets", invariants=inv, properties=[]) for s in ("chain", "star", "two")]
         ex = [dict(shape="chain", max_env=3, flags="m,c,o,e", faults=False),
               dict(shape="star", max_env=2, flags="m,c,o,e", faults=False),
-              dict(shape="two", max_env=2, flags="m,c,o,e", faults=False, env="Edit,Touch,DeleteArt,Truncate,StripKey,Replace,MakeCsr,SetIssuer"),
+              dict(shape="two", max_env=2, flags="m,c,o,e", faults=False, env="Edit,Touch,DeleteArt,Truncate,StripKey,ResaveArt,Replace,MakeCsr,SetIssuer"),
               dict(shape="chain", max_env=2, flags="m", extra="c,m;c,m,o;a;e,m;c,e,m,o", faults=False, native=True),
               dict(shape="star", max_env=2, flags="m", extra="c,m;a", faults=False, native=True)]
     return repo.run_lifecycle(ctx, "C10", mc, ex, "model_checking", ASSUME, replay, extra_cov=extra)
